@@ -70,11 +70,12 @@ type VC struct {
 	oblNames map[string]int
 	implTag  map[string]bool
 	inputs   []ModelVar
+	defs     map[string]Term
 }
 
 func newVC(eng *Engine, fnName string) *VC {
 	return &VC{eng: eng, fnName: fnName, declared: map[string]bool{}, strLits: map[string]Term{},
-		notes: map[string]bool{}, assume: map[string]bool{}, oblNames: map[string]int{}, implTag: map[string]bool{}}
+		notes: map[string]bool{}, assume: map[string]bool{}, oblNames: map[string]int{}, implTag: map[string]bool{}, defs: map[string]Term{}}
 }
 
 func (vc *VC) note(format string, a ...any)       { vc.notes[fmt.Sprintf(format, a...)] = true }
@@ -137,6 +138,7 @@ func (vc *VC) Name(t Term, hint string) Term {
 	}
 	c := vc.Fresh(hint, t.Sort)
 	vc.Assert(Eq(c, t))
+	vc.defs[c.S] = t
 	return c
 }
 
@@ -398,4 +400,53 @@ func sortedKeys[V any](m map[string]V) []string {
 	}
 	sort.Strings(ks)
 	return ks
+}
+
+// litCases expands t (through named definitions) into guarded integer literals when t is an
+// ite-tree whose leaves are all literals: t == lits[i] under conds[i] (first match wins).
+func (vc *VC) litCases(t Term, budget int) (conds []Term, lits []Term, ok bool) {
+	if _, isLit := t.Lit(); isLit {
+		return []Term{TTrue}, []Term{t}, true
+	}
+	if d, has := vc.defs[t.S]; has {
+		return vc.litCases(d, budget)
+	}
+	if strings.HasPrefix(t.S, "(ite ") && budget > 0 {
+		parts := splitTop(t.S[1 : len(t.S)-1])
+		if len(parts) != 4 {
+			return nil, nil, false
+		}
+		c := Term{parts[1], SBool}
+		c1, l1, ok1 := vc.litCases(Term{parts[2], t.Sort}, budget-1)
+		c2, l2, ok2 := vc.litCases(Term{parts[3], t.Sort}, budget-1)
+		if !ok1 || !ok2 || len(l1)+len(l2) > 16 {
+			return nil, nil, false
+		}
+		for i := range c1 {
+			conds = append(conds, And(c, c1[i]))
+			lits = append(lits, l1[i])
+		}
+		for i := range c2 {
+			conds = append(conds, And(Not(c), c2[i]))
+			lits = append(lits, l2[i])
+		}
+		return conds, lits, true
+	}
+	return nil, nil, false
+}
+
+// splitOnLits builds ite(c1, f(l1), ite(c2, f(l2), ...)) when b is an ite-tree of literals.
+func (vc *VC) splitOnLits(b Term, f func(lit Term) Term) (Term, bool) {
+	if _, isLit := b.Lit(); isLit {
+		return Term{}, false
+	}
+	conds, lits, ok := vc.litCases(b, 12)
+	if !ok || len(lits) < 2 {
+		return Term{}, false
+	}
+	r := f(lits[len(lits)-1])
+	for i := len(lits) - 2; i >= 0; i-- {
+		r = Ite(conds[i], f(lits[i]), r)
+	}
+	return r, true
 }
